@@ -215,7 +215,7 @@ impl ShardSplitter {
             None => return Ok(false),
         };
 
-        let next = match progress.next_phase() {
+        let mut next = match progress.next_phase() {
             Some(p) => p,
             None => {
                 // All phases done, just clean up the progress file
@@ -223,6 +223,22 @@ impl ShardSplitter {
                 return Ok(true);
             }
         };
+
+        // The interruption may have hit after the progress file was written but before the
+        // split state reached the metadata store. Storing it is idempotent, and the later
+        // phases cannot run without it.
+        if next == SplitPhase::Preparation {
+            self.metadata
+                .start_split(
+                    old_shard,
+                    progress.new_shards.clone(),
+                    progress.split_point.clone(),
+                )
+                .await?;
+            progress.completed_phase = Some(SplitPhase::Preparation);
+            self.persist_progress(&progress).await?;
+            next = SplitPhase::DualWrite;
+        }
 
         info!(
             "Resuming split for shard {} (fence={}) from phase {:?}",
@@ -303,11 +319,18 @@ impl ShardSplitter {
     async fn run_cutover(&self, progress: &mut SplitProgress) -> Result<()> {
         let old_shard = &progress.old_shard.clone();
 
-        let split_state = self
-            .metadata
-            .get_split_state(old_shard)
-            .await?
-            .ok_or_else(|| crate::Error::Internal("No split in progress".to_string()))?;
+        let split_state = match self.metadata.get_split_state(old_shard).await? {
+            Some(state) => state,
+            None if progress.shard_a_created
+                && progress.shard_b_created
+                && progress.old_shard_deactivated =>
+            {
+                // Every cut-over step is recorded as done and the split state is gone:
+                // complete_split took effect before the interruption.
+                return Ok(());
+            }
+            None => return Err(crate::Error::Internal("No split in progress".to_string())),
+        };
 
         if split_state.new_shards.len() != 2 {
             return Err(crate::Error::Internal(format!(
